@@ -229,6 +229,14 @@ static void do_bld(void) {
         }
         carquet_buffer_destroy(&fb);
     }
+    /* completeness: when every recorded value fits the buffers, none is empty and at least one is not NaN, the builder must
+     * emit both bounds (statistics that are never produced bound nothing) */
+    if (!bad) {
+        int fit = !(type == CARQUET_PHYSICAL_FIXED_LEN_BYTE_ARRAY && (tlen <= 0 || tlen > 256)), real = 0;
+        for (int i = 0; i < nall; i++) { if (all[i].n == 0 || all[i].n > 256) fit = 0; if (!is_nan_val(type, &all[i])) real = 1; }
+        if (fit && real && nall > 0 && !s.min_value) bad = "min-missing";
+        else if (fit && real && nall > 0 && !s.max_value) bad = "max-missing";
+    }
     if (bad) printf(" P=0:%s:%d\n", bad, badi); else puts(" P=1");
     if (use_arena) carquet_arena_destroy(&arena); else { free(s.min_value); free(s.max_value); }
     for (int i = 0; i < nall; i++) free(all[i].base);
